@@ -37,11 +37,20 @@ RULE = (
     "(quant_matrix_values, slice_size_scaler, major/minor_version, qindex, total_slice_bytes, ho keys of asymmetric "
     "configurations) are 'any' in this stratum. Real stratum: level 1 (base formats 1-4; thorough also 24 level-2 cases) "
     "with configurations built from the table, a third with one perturbed parameter group or an asymmetric transform. "
+    "Multi-column synthetic stratum (labelled multi:*): a format near a base video format (C15's level-0 generator) under 2-3 "
+    "generated columns sharing level 1 whose base_video_format sets partition the formats of the configuration's field order "
+    "(sometimes overlapping) and whose trivial cells are shared (4 of 5); in 3 of 4 cases the column owning the most similar "
+    "base format is made unable to express one group the format needs (flag {False} / value excluded / index cell empty) "
+    "while another column can; no pictures (make_sequence(cf, []) in shards 'multi', or - 'multih' - the two data units it "
+    "consists of, built with make_sequence_header_data_unit to avoid the 0.1-0.4 s ordering solver). Picture-less real stratum "
+    "(real0:*): every column of real levels 1-7, base format and coding mode from the column or (a third) from another column "
+    "of the same level, groups customised from the column's cells, a quarter with one free perturbation; same two entry points. "
     "Diagnostic stratum (never a violation): exactly one caller-owned key restricted, everything else any; thorough also one "
     "real level-64 and level-65 stream. Oracle: make_sequence raises a subclass of UnsatisfiableCodecFeaturesError (counted) or "
     "the autofilled serialised stream is accepted by parse_stream under the same substituted tables. Non-trivial = accepted "
     "with >= 2 restricting cells on encoder-owned keys (forced flags, restricted index / base-format cells, ho cells), or a "
-    "raise while a trivial key was restricted; distinct by hash of (configuration, column, pattern)."
+    "raise while a trivial key was restricted; multi / real0: any accept, or a raise of a directed / near-miss case; distinct "
+    "by hash of (configuration, columns, pattern)."
 )
 ASSUMPTIONS = [
     "Caller-owned level keys which encoder/__init__.py documents as the caller's responsibility are never restricted in the "
@@ -50,6 +59,8 @@ ASSUMPTIONS = [
     "version is dictated by caller-owned features (fragments).",
     "Lossy configurations get a generous bit budget (the budget/qindex interplay is C03/C14's subject); a case whose budget has "
     "no representable qindex (harness size model) is out of domain.",
+    "The picture-less strata judge sequence header + end of sequence only; the 'header_unit' entry assembles exactly the data "
+    "units make_sequence(cf, []) yields for patterns admitting them (checked by the make_sequence shards) without the solver.",
     "Real levels above 2 are not encoded in full (1280x720 and larger cost > 20 s per case); their tables differ from level 1/2 "
     "only in base formats, one frame-rate index and slice geometry.",
 ]
